@@ -63,6 +63,7 @@ def write_evidence(pid, tier, seed, mod, merged, reg_info, known_info, wall, vio
         regressions_replayed=reg_info,
         known_findings=known_info,
         harness_errors=errors,
+        second_interpreter=getattr(mod, "SECOND_RESULT", None),
         interpreter=dict(python=sys.version.split()[0], numpy=numpy.__version__,
                          hypothesis=hypothesis.__version__, repo=engine.REPO),
     )
@@ -93,6 +94,46 @@ def save_replay(pid, failure, seed, tag):
                                 detail=failure.get("detail"))), f, indent=1)
         f.write("\n")
     return os.path.relpath(path, ROOT)
+
+
+def run_second_interpreter(pid, mod, seed, violations, errors):
+    """thorough tier: rerun the listed laws (quick budget) under the tooling interpreter
+    (python3-vt: another NumPy version), in a child process that writes no evidence."""
+    import shutil
+    import subprocess
+    exe = shutil.which("python3-vt")
+    if exe is None:
+        return {"skipped": "python3-vt not on PATH"}
+    out = {"interpreter": exe, "laws": {}}
+    for law in mod.SECOND_INTERPRETER:
+        env = dict(os.environ)
+        env.update(VERIF_CHILD="1", VERIF_SEED=str(seed), PYTHONPATH=ROOT,
+                   VERIF_JOBS="4")
+        try:
+            r = subprocess.run([exe, "-m", "vt.cli", pid, "--tier", "quick", "--law", law],
+                               cwd=ROOT, env=env, capture_output=True, text=True,
+                               timeout=1800)
+        except Exception as e:  # noqa
+            out["laws"][law] = {"error": repr(e)}
+            continue
+        summ = None
+        for line in r.stdout.splitlines():
+            if line.startswith("CHILD-SUMMARY "):
+                summ = json.loads(line[len("CHILD-SUMMARY "):])
+            if line.startswith("VIOLATION "):
+                rp = line.split("replay=")[-1].strip()
+                violations.append((rp, dict(law=law, kind="violation(second interpreter)",
+                                            msg=r.stdout[-1500:], detail=None, case=None)))
+        if r.returncode == 2 or summ is None:
+            if summ is None and r.returncode != 1:
+                out["laws"][law] = {"skipped": "child could not run: " +
+                                    (r.stdout + r.stderr)[-300:]}
+                continue
+        out["laws"][law] = summ["laws"].get(law) if summ else None
+        if summ:
+            out["numpy"] = summ["numpy"]
+            out["python"] = summ["python"]
+    return out
 
 
 def find_law(mod, name):
@@ -190,8 +231,28 @@ def main(argv=None):
         for i, f in enumerate(m["failures"][:1]):
             rp = save_replay(pid, f, seed, "%s%d" % (args.tier[0], i))
             violations.append((rp, f))
+    child = bool(os.environ.get("VERIF_CHILD"))
+    second = None
+    if (not child and args.tier == "thorough" and not args.law
+            and getattr(mod, "SECOND_INTERPRETER", None)):
+        second = run_second_interpreter(pid, mod, seed, violations, errors)
     wall = time.time() - t0
+    if child:
+        summ = {n: dict(cases=m["evaluations"], nontrivial=len(m["nt_keys"]),
+                        failures=len(m["failures"])) for n, m in merged.items()}
+        import numpy
+        print("CHILD-SUMMARY " + json.dumps({"numpy": numpy.__version__,
+                                              "python": sys.version.split()[0],
+                                              "laws": summ}))
+        for (rp, f) in violations:
+            print("VIOLATION property=%s replay=%s" % (pid, rp))
+            print("  law=%s %s: %s" % (f["law"], f["kind"], f["msg"]))
+        for e in errors:
+            print("HARNESS-ERROR property=%s %s" % (pid, e))
+        return 1 if violations else (2 if errors else 0)
     try:
+        if second is not None:
+            mod.SECOND_RESULT = second
         evpath = write_evidence(pid, args.tier, seed, mod, merged, reg_info, known_info,
                                 wall, len(violations), errors)
     except Exception as e:  # noqa
